@@ -111,6 +111,26 @@ def run(ck):
         if dl > 1e-9 * scl:
             ck.fail("td:last-is-ti", "time-dependent tensor at its last time index differs from the time-independent tensor", inp, float(dl), float(1e-9 * scl))
         TD_o, hamo = agg.get_RelaxationTensor(ta, relaxation_theory="standard_Redfield", time_dependent=True, as_operators=True)
+        # the same with a cut-off time: defined on the whole axis, constant after the cut-off, last index = time-independent tensor
+        # with that cut-off, and usable for propagation beyond the cut-off
+        try:
+            tcutv = rng.choice([20.0, 35.0])
+            TD_c0, hamc0 = agg.get_RelaxationTensor(ta, relaxation_theory="standard_Redfield", time_dependent=True, relaxation_cutoff_time=tcutv)
+            RT_c0, _h = agg.get_RelaxationTensor(ta, relaxation_theory="standard_Redfield", relaxation_cutoff_time=tcutv)
+            with eigenbasis_of(hamc0):
+                dc = numpy.array(TD_c0.data)
+                rc = numpy.array(RT_c0.data)
+            kc = int(tcutv)
+            sclc = numpy.abs(rc).max()
+            if dc.shape[0] != ta.length or numpy.abs(dc[kc:] - dc[kc - 1]).max() > 1e-12 * sclc or numpy.abs(dc[-1] - rc).max() > 1e-9 * sclc \
+                    or numpy.abs(dc[0]).max() > 1e-12 * sclc:
+                ck.fail("td:cutoff", "time-dependent tensor with a cut-off time is not defined on the whole axis / not constant after the cut-off / "
+                        "differs at its last index from the time-independent tensor with the same cut-off", dict(inp, cutoff=tcutv),
+                        [list(dc.shape), float(numpy.abs(dc[-1] - rc).max())])
+            ReducedDensityMatrixPropagator(TimeAxis(0.0, int(tcutv) + 20, 1.0), hamc0, TD_c0).propagate(ReducedDensityMatrix(data=rho0.copy()))
+        except Exception as e:
+            ck.fail("raises:td:cutoff", "time-dependent tensor with a cut-off time: construction or propagation past the cut-off raised %r" % (e,),
+                    dict(inp))
         # coarse propagation axis, partial refinement: stride > 1
         stepc = rng.choice([4.0, 6.0])
         nrefc = rng.choice([1, 2])
@@ -164,6 +184,80 @@ def run(ck):
         if dev > 1e-9:
             ck.fail("td:propagate:stride", "time-dependent propagation on a coarse axis does not sample the tensor at the elapsed times",
                     dict(inp, step=stepc, Nref=nrefc), float(dev))
+    # ---- propagation inside a basis context: every form of the tensor, same dynamics as outside -----------------------------------
+    for s3 in range(ck.n(2, 8)):
+        nmol = 2
+        tb = TimeAxis(0.0, 100, 1.0)
+        aggb = build_agg(qr, numpy, rng, nmol, tb)
+        n = nmol + 1
+        rho0, _ = SY.rand_state(numpy, rng, n)
+        rho0[0, :] = 0; rho0[:, 0] = 0; rho0 = rho0 / numpy.trace(rho0)
+        tpb = TimeAxis(0.0, 15, 1.0)
+        ref = {}
+        for td in (False, True):
+            for ops in (False, True):
+                for inside in (False, True):
+                    inp = {"sites": nmol, "time_dependent": td, "as_operators": ops, "inside_eigenbasis_of": inside}
+                    ck.case(("ctx-prop", s3, td, ops, inside), nontrivial=inside, kind="propagate-in-context")
+                    try:
+                        T_, h_ = aggb.get_RelaxationTensor(tb, relaxation_theory="standard_Redfield", time_dependent=td, as_operators=ops)
+                        rr = ReducedDensityMatrix(data=rho0.copy())
+                        pr_ = ReducedDensityMatrixPropagator(tpb, h_, T_)
+                        if inside:
+                            with eigenbasis_of(h_):
+                                ev = pr_.propagate(rr)
+                        else:
+                            ev = pr_.propagate(rr)
+                        d_ = numpy.array(ev.data)
+                    except Exception as e:
+                        ck.fail("raises:context:propagate", "propagation raised %r" % (e,), inp)
+                        continue
+                    if td not in ref:
+                        ref[td] = d_
+                    dev = float(numpy.abs(d_ - ref[td]).max())
+                    ck.resid("propagation inside/outside a basis context, operator/tensor form", dev)
+                    if dev > 1e-9:
+                        ck.fail("context:propagate:%s:%s" % ("td" if td else "ti", "ops" if ops else "tensor"),
+                                "propagated dynamics depend on the form of the tensor or on the basis context", inp, dev)
+    # ---- time-dependent tensor on a fine bath axis whose step does not divide the propagation step exactly in binary ---------
+    for s2 in range(ck.n(2, 6)):
+        nmol = 2
+        bs = 0.1
+        tfine = TimeAxis(0.0, ck.n(80, 160), bs)
+        aggf = build_agg(qr, numpy, rng, nmol, tfine)
+        n = nmol + 1
+        TD_f, hamf = aggf.get_RelaxationTensor(tfine, relaxation_theory="standard_Redfield", time_dependent=True)
+        rho0, _ = SY.rand_state(numpy, rng, n)
+        rho0[0, :] = 0; rho0[:, 0] = 0; rho0 = rho0 / numpy.trace(rho0)
+        Hc = numpy.array(hamf.get_RWA_data()) if hamf.has_rwa else numpy.array(hamf.data)
+        Rtd = numpy.array(TD_f.data)
+        for stepc in ((0.3, 0.7) if s2 % 2 == 0 else (0.6, 1.2)):
+            inp = {"sites": nmol, "bath_axis_step": bs, "propagation_step": stepc, "ratio_in_floating_point": stepc / bs}
+            ck.case(("td-fine", s2, stepc), nontrivial=True, kind="td-noninteger-binary-ratio")
+            tc = TimeAxis(0.0, 6, stepc)
+            try:
+                da = numpy.array(ReducedDensityMatrixPropagator(tc, hamf, TD_f).propagate(ReducedDensityMatrix(data=rho0.copy())).data)
+            except Exception as e:
+                ck.fail("raises:td:propagate:fine", "propagation raised %r" % (e,), inp)
+                continue
+            stride = int(round(stepc / bs))
+            dtw = bs * stride
+            ref = [rho0.copy()]
+            r2 = rho0.copy(); idx = 1
+            for i in range(1, 6):
+                R = Rtd[idx]
+                r1 = r2.copy(); acc = r2.copy()
+                for ll in range(1, 5):
+                    r1 = -(1j * dtw / ll) * (Hc @ r1 - r1 @ Hc) + (dtw / ll) * numpy.tensordot(R, r1)
+                    acc = acc + r1
+                r2 = acc
+                idx = min(idx + stride, Rtd.shape[0] - 1)
+                ref.append(r2.copy())
+            dev = numpy.abs(numpy.array(ref) - da).max()
+            ck.resid("td propagation, non-binary step ratio: vs reference loop", dev)
+            if dev > 1e-9:
+                ck.fail("td:propagate:stride", "time-dependent propagation on a coarse axis does not sample the tensor at the elapsed times "
+                        "(step ratio that is a whole number but not exactly so in floating point)", inp, float(dev))
     # ---- Lindblad twins (random) through the model ----------------------------------------------------
     for h in range(ck.n(10, 120)):
         n = rng.choice([2, 3])
